@@ -661,3 +661,122 @@ def rule_cache_kinds(ctx):
                 r.check(not bad, b.id, "reads-%s-cache" % other, "%s query reads only the %s cache" % (mine, mine), "the %s-acceptance method reads the %s answer cache: a cached answer to the other question decides this one" % (mine, other), bad[0].loc() if bad else b.loc())
     r.floor(n, 10, "acceptance methods of the dynamic solvers")
     r.floor(n_look, 4, "cache look-ups of the matching kind")
+
+
+# ------------------------------------------------------------------------------------------
+# the witness cached with a list of decided arguments fits every argument of the list (D10)
+
+
+def rule_cached_witness_consistent(ctx):
+    prog = ctx.prog
+    from ..prov import prov, subterms
+
+    r = ctx.rule(
+        "cached-witness-fits-the-list",
+        "a dynamic solver caches `refused skeptically: R, witness E` (resp. `accepted credulously: A, witness E`) and later hands E out as the "
+        "certificate of every argument of the list: so R must be made of arguments E omits (A of arguments E contains) - both read off one SAT "
+        "model, or the list explicitly cleared of E's members (restricted to them) before it is cached; a list accumulated over several "
+        "extensions of a search with the witness of the last one does not qualify",
+    )
+    n = 0
+    per_fn = {}
+    for b in sorted(prog.lib_bodies(), key=lambda x: x.id):
+        fn = prog.enclosing_fn(b)
+        if not (fn.impl and (fn.impl.get("self_adt") or "").startswith("dynamics::")):
+            continue
+        for s in b.calls():
+            nm = strip_generics(callee_name(callee_of(s)) or "")
+            m = re.search(r"::add_(skeptical|credulous)_computation$", nm)
+            if not m or len(s.node["args"]) < 4:
+                continue
+            kind = m.group(1)
+            lst = s.node["args"][2] if kind == "skeptical" else s.node["args"][1]
+            ext = s.node["args"][3]
+            # is a witness handed over here at all?
+            some = False
+            for o in origins(b, ext, transparent=("core::clone::Clone::clone",)):
+                if o.kind == "agg" and o.data.get("variant") == "Some":
+                    some = True
+                elif o.kind not in ("agg", "const"):
+                    some = True
+            k0 = op_const(lst)
+            empty = False
+            for o in origins(b, lst, transparent=()):
+                if o.kind == "call" and callee_decl(o.data) in ("alloc::vec::Vec::new",):
+                    empty = True
+            if not some or empty:
+                continue
+            n += 1
+            per_fn[fn.id] = per_fn.get(fn.id, 0) + 1
+            anchor = "%s|%s#%d" % (fn.id, kind, per_fn[fn.id])
+            ldeps, lcalls, _ = data_deps(b, lst)
+            edeps, ecalls, _ = data_deps(b, ext)
+            models = {l for l in (ldeps & edeps) if "sat::sat_solver::Assignment" in b.local_ty(l) or "sat::assignment::Assignment" in b.local_ty(l) or b.local_ty(l).endswith("Assignment")}
+            if models:
+                r.ok(anchor, "list and witness are read off one SAT model", s.loc())
+                continue
+            # explicit exclusion / restriction: a store `flags[id(member of the witness)] = false`, or a filter testing membership in the witness
+            fitted = False
+            for y in prog.with_closures(fn):
+                for s2 in y.calls():
+                    d2 = callee_decl(callee_of(s2))
+                    if d2 == "core::ops::index::IndexMut::index_mut" and "bool" in str(callee_of(s2).get("substs")):
+                        from .equiv import _stores_through
+
+                        vals = [(op_const(o) or {}).get("bool") for o in _stores_through(y, s2)]
+                        want = False if kind == "skeptical" else True
+                        if want not in vals:
+                            continue
+                        for e in prov(prog, y, s2.node["args"][1]):
+                            # index = id(each(<the witness>)): the iterated collection derives from the same value as `ext`
+                            for t in subterms(e):
+                                if isinstance(t, tuple) and t[0] == "elem":
+                                    st2 = _site_in_fn(prog, fn, y, s2)
+                                    # the clearing runs before the list is cached (on the paths that have a witness at all)
+                                    if _same_source(prog, fn, t[1], b, ext) and st2 is not None and b is fn and st2.bb != s.bb and fn.reaches(st2.bb, s.bb) and not fn.reaches(s.bb, st2.bb):
+                                        fitted = True
+            r.check(fitted, anchor, "witness-may-not-fit", "the cached list is cleared of (restricted to) the witness's members", "the %s list cached with a witness is not tied to that witness: it is accumulated independently of it (e.g. over all the extensions a search visited) while the witness is one extension - a later query for a listed argument gets a certificate that %s it" % ("refused" if kind == "skeptical" else "accepted", "contains" if kind == "skeptical" else "omits"), s.loc())
+    r.floor(n, 3, "cache insertions that carry a witness")
+
+
+def _site_in_fn(prog, fn, y, s):
+    """the site of fn at which the closure chain leading to y is created / called (s itself when y is fn)"""
+    if y is fn:
+        return s
+    cur = y
+    for _ in range(4):
+        if not cur.parent:
+            return None
+        par = prog.by_target[cur.target].get(cur.parent["direct"])
+        if par is None:
+            return None
+        site = None
+        for cs in par.calls():
+            c = callee_of(cs)
+            if c is not None and cur.path in (c.get("fn_args") or []):
+                site = cs
+        if site is None:
+            for st in par.sites():
+                nd = st.node
+                if st.si is not None and nd["k"] == "assign" and nd["rv"]["k"] == "aggregate" and nd["rv"]["agg"].get("path") == cur.path:
+                    site = st
+        if site is None:
+            return None
+        if par is fn:
+            return site
+        cur = par
+    return None
+
+
+def _same_source(prog, fn, tree, b, ext_op):
+    """the iterated collection `tree` and the operand `ext_op` of body b come from the same computation: they share a call leaf"""
+    from ..prov import prov, subterms
+
+    def calls(e):
+        return {(t[1], t[2]) for t in subterms(e) if isinstance(t, tuple) and t[0] == "call" and not re.search(r"clone$|to_vec$|Iterator::|into_iter$|iter$", t[1])}
+
+    a = calls(tree)
+    bset = set()
+    for e in prov(prog, b, ext_op):
+        bset |= calls(e)
+    return bool(a & bset)
